@@ -14,6 +14,10 @@ RULES = {
              "file_offset = blk.offset + start identically",
     "C16.3": "backend dispatch is exhaustive: every match on StorageImpl in write/read/flush/len handles both variants with no catch-all, the Mmap arm of flush reaches MmapMut::flush "
              "and the Fd arm reaches File::sync_all",
+    "C16.4": "completion accounting of the io_uring batch path: either (a) the ring a batch is submitted on is created in that very call (IoUring::new dominates every SQE push and "
+             "submit_and_wait, the ring does not come from a field or static) with a size derived from that batch's plan - then submit_and_wait(plan.len()) leaves exactly this "
+             "batch's completions in a queue that can hold them -, or (b) the completion loop treats a missing completion as a failure. The mmap backend has no such state, so a ring "
+             "that outlives a batch (stale completions, a completion queue sized for an earlier batch) makes the two backends answer the same sequence of batches differently",
 }
 
 ENCODERS = ["block::Block::write", "writer::Writer::submit_batch_via_io_uring"]
@@ -174,10 +178,65 @@ def check_dispatch(ctx, facts):
         ctx.violate("C16.3", "storage::StorageImpl::flush", "fd-flush-missing", fd.relfile, fd.line, "the Fd arm of flush does not reach File::sync_all")
 
 
+def check_ring_lifetime(ctx, facts):
+    from .core.slicing import origins
+    from .core.cond import all_tests
+    u = facts.body("writer::Writer::submit_batch_via_io_uring")
+    F = common.short_fn(u.name)
+    news = u.calls(re.compile(r"io_uring::IoUring(::<.*>)?::new$|IoUring.*::new$|io_uring::Builder.*::build$"))
+    users = u.calls(re.compile(r"IoUring.*::(submission|submit_and_wait|submit|completion)$"))
+    if not users:
+        ctx.anchor_missing("C16.4", "io_uring submission/completion calls in " + F)
+        return
+    fresh = True
+    why = None
+    for c in users:
+        src, _, _ = origins(u, c.node["args"][0], follow_all_calls=True)
+        made_here = [o for o in src if o.kind == "call" and re.search(r"IoUring.*::new$|Builder.*::build$", o.what)]
+        foreign = [o for o in src if (o.kind == "field" and isinstance(o.what, tuple) and str(o.what[0]).endswith("writer::Writer")) or o.kind == "static"]
+        if not made_here or foreign:
+            fresh = False
+            why = "the ring used at line %s comes from %s" % (c.line, ("Writer." + foreign[0].what[1]) if foreign and foreign[0].kind == "field" else "outside this call")
+            break
+        if not any(u.dominates(n.bb, c.bb) for n in news):
+            fresh = False
+            why = "IoUring::new does not dominate the ring use at line %s (the ring is created on some paths only)" % c.line
+            break
+    sized = False
+    for n in news:
+        src, _, _ = origins(u, n.node["args"][0], follow_all_calls=True) if n.node["args"] else (set(), None, None)
+        if any(o.kind == "arg" for o in src) and any(o.kind == "call" and o.what.endswith("len") for o in src):
+            sized = True
+    if fresh and sized:
+        ctx.ok("C16.4", F, "the ring is created in this call, sized from this batch's plan, and used for this batch only", u.relfile, news[0].line)
+        return
+    # (b) a missing completion is a failure
+    strict = False
+    for c in u.calls(re.compile(r"CompletionQueue.*Iterator>::next$|CompletionQueue.*::next$")):
+        d = c.node["dest"]["l"]
+        for T in all_tests(u):
+            if T.kind == "discr" and T.place["l"] == d and not T.place["p"]:
+                none_e = T.variant_edges.get(0)
+                if none_e is None:
+                    continue
+                for site, st in u.assigns():
+                    if st["rv"]["k"] == "use" and st["rv"]["op"].get("k") == "const" and st["rv"]["op"].get("ty") == "bool" and st["rv"]["op"].get("val") == 0 \
+                            and u.edge_guards(none_e, site.bb):
+                        strict = True
+    if strict:
+        ctx.ok("C16.4", F, "a missing completion clears the success flag", u.relfile, users[0].line)
+    else:
+        ctx.violate("C16.4", F, "ring-outlives-batch", u.relfile, (news or users)[0].line,
+                    "%s, and the completion loop silently skips a missing completion: completions left over from an earlier batch are taken for this batch's, "
+                    "and a completion queue sized for an earlier, smaller batch overflows - the io_uring backend then rejects or mis-acknowledges batches the mmap backend accepts"
+                    % (why or "the ring is not sized from this batch's plan"))
+
+
 def run(ctx):
     for k, v in RULES.items():
         ctx.rule(k, v)
     facts = common.mir(ctx, "walrus_rust")
+    check_ring_lifetime(ctx, facts)
     check_encoders(ctx, facts)
     check_range_builders(ctx, facts)
     check_dispatch(ctx, facts)
